@@ -4,8 +4,8 @@
    check_convert_value as repaired by fixes/C14-*.patch) is tied to
    aiohomekit/model/characteristics/characteristic.py and Service.build_update
    by the correspondence check harness/c14.py. *)
-From Coq Require Import List NArith ZArith Bool.
-From AHK Require Import Lib.Res Model.Convert Proofs.ConvertInt.
+From Coq Require Import List NArith ZArith Bool QArith Qabs.
+From AHK Require Import Lib.Res Model.Convert Proofs.ConvertInt Proofs.ConvertQ Proofs.ConvertFrac.
 Import ListNotations.
 Local Open Scope Z_scope.
 
@@ -86,6 +86,96 @@ Example c14_nonvacuous :
   check_convert FBool None None None [84; 114; 117; 101]%N RReject = Ok (VInt 1).
 Proof. cbv zeta. repeat split; vm_compute; reflexivity. Qed.
 
+
+(* ---------------------------------------------------------------------- *)
+(* Fractional values (float format; the six-digit decimal context).        *)
+(* dval d = (-1)^sign * coefficient * 10^exponent in Q;  clampQ / offQ are *)
+(* max/min and the declared minimum (or 0) in Q;  rhaQ x is x rounded to   *)
+(* the nearest integer, ties away from zero;                               *)
+(*   rnd6 x y := |y - x| <= 5e-6 * |x|  /\  (x has <= 6 significant digits *)
+(*                                           -> y == x).                   *)
+(* ---------------------------------------------------------------------- *)
+Local Open Scope Q_scope.
+
+(* For EVERY finite input, bounds and non-zero step (any magnitudes, any number
+   of digits, e.g. the exact binary expansions of Python floats) the result is
+       (min + r * step)   with  r = round-half-up(q),  q = ((clamp(v) - min)) / step
+   where each of the four operations (-, /, *, +) is followed by one rounding
+   to six significant digits: it moves its exact result by at most 5e-6 of its
+   magnitude and not at all when that result has at most six digits.  r itself
+   is the exact nearest integer (ties away from zero) of the rounded quotient. *)
+Theorem frac_six_digits : forall omin omax s str v, dcoef s <> 0%N ->
+  let C := clampQ (option_map dval omin) (option_map dval omax) (dval v) in
+  let O := offQ omin in
+  exists res d q m,
+    check_convert FFloat omin omax (Some s) str (RFin v) = Ok (VDec res) /\
+    rnd6 (C - O) d /\ rnd6 (d / dval s) q /\
+    rnd6 (inject_Z (rhaQ q) * dval s) m /\ rnd6 (O + m) (dval res).
+Proof. exact float_six_digits_lemma. Qed.
+
+(* ... hence exact whenever the four intermediates have at most six significant
+   digits: the result IS min + round-half-up((clamp(v) - min) / step) * step *)
+Theorem frac_exact_small : forall omin omax s str v, dcoef s <> 0%N ->
+  let C := clampQ (option_map dval omin) (option_map dval omax) (dval v) in
+  let O := offQ omin in
+  let r := rhaQ ((C - O) / dval s) in
+  rep6 (C - O) -> rep6 ((C - O) / dval s) -> rep6 (inject_Z r * dval s) -> rep6 (O + inject_Z r * dval s) ->
+  exists res, check_convert FFloat omin omax (Some s) str (RFin v) = Ok (VDec res) /\
+              dval res == O + inject_Z r * dval s.
+Proof. exact float_exact_small_lemma. Qed.
+
+(* without a step the clamped value is handed over unchanged *)
+Theorem float_nostep_exact : forall omin omax str v,
+  exists res, check_convert FFloat omin omax None str (RFin v) = Ok (VDec res) /\
+              dval res == clampQ (option_map dval omin) (option_map dval omax) (dval v).
+Proof. exact float_nostep_lemma. Qed.
+
+(* the meaning of the tolerance and of the integer rounding used above *)
+Theorem near_is_5e_6 : forall x y, near x y -> Qabs (y - x) <= (5 # 1000000) * Qabs x.
+Proof. exact near_bound. Qed.
+
+Theorem rhaQ_is_nearest : forall x k, Qabs (x - inject_Z (rhaQ x)) <= Qabs (x - inject_Z k).
+Proof. exact rhaQ_nearest. Qed.
+
+(* the individual decimal operations of the model are correctly rounded *)
+Theorem decimal_ops_rounded : forall a b,
+  rnd6 (dval a + dval b) (dval (dadd ctx6 a b)) /\
+  rnd6 (dval a - dval b) (dval (dsub ctx6 a b)) /\
+  rnd6 (dval a * dval b) (dval (dmul ctx6 a b)) /\
+  (dcoef b <> 0%N -> exists q, ddiv ctx6 a b = Some q /\ rnd6 (dval a / dval b) (dval q)) /\
+  dval (to_integral HalfUp a) == inject_Z (rhaQ (dval a)).
+Proof. exact decimal_ops_lemma. Qed.
+
+(* non-vacuity: the lennox case of tests/test_model.py with short decimals
+   (27.26, min 10, max 38, step 0.5 -> 27.5) meets the hypotheses of
+   frac_exact_small; and the same value as the float 27.26 really is (its
+   exact binary expansion, 50 digits) with the float step 0.1 gives 27.3 *)
+Example c14_frac_nonvacuous :
+  let mk := fun c e => mkDec false c e in
+  let omin := Some (mk 10%N 0%Z) in let omax := Some (mk 38%N 0%Z) in
+  let C := clampQ (option_map dval omin) (option_map dval omax) (dval (mk 2726%N (-2)%Z)) in
+  let O := offQ omin in let s := mk 5%N (-1)%Z in
+  let r := rhaQ ((C - O) / dval s) in
+  (rep6 (C - O) /\ rep6 ((C - O) / dval s) /\ rep6 (inject_Z r * dval s) /\ rep6 (O + inject_Z r * dval s)) /\
+  r = 35%Z /\ O + inject_Z r * dval s == 275 # 10 /\
+  check_convert FFloat omin omax (Some s) [] (RFin (mk 2726%N (-2)%Z)) = Ok (VDec (mk 275%N (-1)%Z)) /\
+  check_convert FFloat (Some (mk 72%N (-1)%Z)) None
+     (Some (mk 1000000000000000055511151231257827021181583404541015625%N (-55)%Z)) []
+     (RFin (mk 27260000000000001563194018672220408916473388671875%N (-48)%Z))
+    = Ok (VDec (mk 273000%N (-4)%Z)).
+Proof.
+  cbv zeta. split; [|split; [|split; [|split]]].
+  - split; [|split; [|split]].
+    + exists 1726%Z, (-2)%Z. split; [reflexivity|]. vm_compute. reflexivity.
+    + exists 3452%Z, (-2)%Z. split; [reflexivity|]. vm_compute. reflexivity.
+    + exists 175%Z, (-1)%Z. split; [reflexivity|]. vm_compute. reflexivity.
+    + exists 275%Z, (-1)%Z. split; [reflexivity|]. vm_compute. reflexivity.
+  - vm_compute. reflexivity.
+  - vm_compute. reflexivity.
+  - vm_compute. reflexivity.
+  - vm_compute. reflexivity.
+Qed.
+
 Print Assumptions int_exact.
 Print Assumptions int_nearest_grid_point.
 Print Assumptions rhaz_is_nearest.
@@ -96,3 +186,9 @@ Print Assumptions float_is_dec.
 Print Assumptions bool_is_01.
 Print Assumptions convert_error_class.
 Print Assumptions convert_total.
+Print Assumptions frac_six_digits.
+Print Assumptions frac_exact_small.
+Print Assumptions float_nostep_exact.
+Print Assumptions near_is_5e_6.
+Print Assumptions rhaQ_is_nearest.
+Print Assumptions decimal_ops_rounded.
